@@ -21,6 +21,12 @@ pub struct W<T>(pub T);
 macro_rules! fwd { ($($tr:ident),*) => { $( impl<T: fmt::$tr> fmt::$tr for W<T> {
     fn fmt(&self, f: &mut fmt::Formatter<'_>) -> fmt::Result { fmt::$tr::fmt(&self.0, f) } } )* } }
 fwd!(Display, Debug, Binary, Octal, LowerHex, UpperHex, LowerExp, UpperExp);
+/// projections: `<Holder as Project<T>>::Out == T`, `<Holder as Family>::Of<T> == W<T>`
+pub struct Holder;
+pub trait Project<T> { type Out; }
+impl<T> Project<T> for Holder { type Out = T; }
+pub trait Family { type Of<T>; }
+impl Family for Holder { type Of<T> = W<T>; }
 pub fn need_display<X: fmt::Display>() {}
 pub fn need_debug<X: fmt::Debug>() {}
 pub fn need_binary<X: fmt::Binary>() {}
@@ -38,7 +44,11 @@ NEED = {"Display": "need_display", "Debug": "need_debug", "Binary": "need_binary
 def gen_field_type(rng, params, trait):
     """(rust type, set of params mentioned, formats under `trait` iff those params do)"""
     p = rng.choice(params)
-    k = rng.randrange(6)
+    k = rng.randrange(8)
+    if k == 6:
+        return "<Holder as Project<%s>>::Out" % p, {p}
+    if k == 7:
+        return rng.choice(["<Holder as Family>::Of<%s>" % p, "<Holder as Project<W<%s>>>::Out" % p]), {p}
     if k == 0:
         return p, {p}
     if k == 1:
